@@ -5,7 +5,7 @@
 (* The forest ($DOCS, one flattened XDM document per line) is parked in TLC register 2.          *)
 (* The same module validates the typed entry points of C11 (field `kind`): the result must be    *)
 (* the standard conversion of the general value.                                                 *)
-EXTENDS XPathSem, Json, IOUtils
+EXTENDS XPathSyntax, Json, IOUtils
 VARIABLES l, st, failed, done
 
 Forest == TLCGet(2)
@@ -30,14 +30,28 @@ Convert(F, kind, v) ==
 Delivered(j) == [k \in 1..Len(j.v) |-> <<j.v[k][1], j.v[k][2], j.v[k][3]>>]
 OrderOk(ev) == ("error" \in DOMAIN ev) \/ ev.res.t # "ns" \/ Delivered(ev.res) = DocOrderSeq(Range(Delivered(ev.res)))
 
+(* Events may carry the raw lexemes of the expression text (toks, lexok).  Then the expression is   *)
+(* what XPathSyntax!Parse makes of them: a string that is not an XPath expression must be rejected *)
+(* by the implementation; and where the generator also recorded the AST it rendered, parser and    *)
+(* renderer must agree (an internal consistency check of the specification, not of Xalan).         *)
 C02Step(s, ev) ==
-  LET want == Convert(Forest, ev.kind, Eval(ev.expr, Ctx(ev)))
+  LET hasToks == "toks" \in DOMAIN ev
+      pr == IF ~hasToks THEN Ok(ev.expr, 0) ELSE IF ev.lexok THEN Parse(ev.toks, <<>>) ELSE Fail
+      consistent == ~hasToks \/ "expr" \notin DOMAIN ev \/ (pr.ok /\ pr.ast = ev.expr)
       isErr == "error" \in DOMAIN ev
-      got == IF isErr THEN ErrV ELSE LoadVal(ev.res)
-  IN IF want.t = "unm" THEN [ok |-> TRUE, st |-> s, drop |-> TRUE, msg |-> ""]
-     ELSE [ok |-> want = got /\ OrderOk(ev), st |-> s, drop |-> FALSE, cont |-> TRUE,
-           msg |-> (IF want = got THEN "ORDER: delivered sequence is not in document order: " \o ToString(ev.res.v)
-                    ELSE "want " \o ToString(want) \o " got " \o ToString(got))]
+  IN IF ~consistent
+     THEN [ok |-> FALSE, st |-> s, drop |-> FALSE, cont |-> TRUE,
+           msg |-> "SPEC-INCONSISTENT: XPathSyntax!Parse of the rendered text differs from the generated AST: " \o ToString(pr)]
+     ELSE IF ~pr.ok
+     THEN [ok |-> isErr, st |-> s, drop |-> FALSE, cont |-> TRUE,
+           msg |-> "NOT-AN-EXPRESSION accepted: the token string is not derivable from the XPath 1.0 grammar but evaluation returned a value"]
+     ELSE LET want == Convert(Forest, ev.kind, Eval(pr.ast, Ctx(ev)))
+              got == IF isErr THEN ErrV ELSE LoadVal(ev.res)
+          IN IF want.t = "unm" THEN [ok |-> TRUE, st |-> s, drop |-> TRUE, msg |-> ""]
+             ELSE [ok |-> want = got /\ OrderOk(ev), st |-> s, drop |-> FALSE, cont |-> TRUE,
+                   msg |-> (IF want # got THEN "want " \o ToString(want) \o " got " \o ToString(got)
+                            ELSE IF ~OrderOk(ev) THEN "ORDER: delivered sequence is not in document order: " \o ToString(ev.res.v)
+                            ELSE "")]
 
 TraceInit2 == TLCSet(2, ndJsonDeserialize(IOEnv.DOCS))
 
